@@ -530,6 +530,14 @@ impl Worker {
                 error!("failed to sync writer thread during shutdown: {err}");
             }
         }
+
+        // The index files of recently sealed segments are written by background jobs, and a
+        // sealed segment without them does not reopen: wait for those jobs
+        if let Some(writer_set) = self.writers.values().next() {
+            while !writer_set.reader_pool.indexes_flushed() {
+                thread::sleep(Duration::from_millis(1));
+            }
+        }
     }
 }
 
